@@ -107,7 +107,63 @@ def g_phase(rng):
         ids.append(cand)
         return cand
 
+    pool = []       # (loop counters in scope, expression): operator expressions of earlier statements of the phase
+
+    def remember(cnts, kind):
+        def walk(j):
+            if isinstance(j, list) and j:
+                if j[0] in ("+", "*", "if", "call", "min", "max", "sub") and len(pool) < 40:
+                    pool.append((list(cnts), j))
+                for x in j[1:]:
+                    if isinstance(x, list):
+                        for y in (x if x and isinstance(x[0], list) else [x]):
+                            walk(y)
+        for part in kind[1:]:
+            if isinstance(part, list):
+                walk(part)
+
+    def repeated(cnts, d):
+        """the SAME subexpression several times: in one statement (once inside a branch of a conditional and again
+        where that branch does not run; twice side by side) or taken verbatim from an EARLIER statement of the phase
+        (whose variables may have been reassigned since, or which sat under a guard / loop that did not run)"""
+        usable = [e for c, e in pool if all(x in cnts for x in c)]
+        if usable and rng.random() < 0.6:
+            e = copy.deepcopy(rng.choice(usable))
+        else:
+            e = ["if", ["cmp", rng.choice(["<", ">="]), ["v", rng.choice(ints)], ["c", rng.randint(0, 3)]],
+                 g_pure(rng, 1, ints, cnts, False), g_pure(rng, 1, ints, cnts, False)]
+        if lazy_unsafe(e):
+            e = ["if", ["cmp", "<", ["v", rng.choice(ints)], ["c", 2]], ["v", rng.choice(ints)], ["c", rng.randint(0, 4)]]
+        p_ = ["cmp", rng.choice(["<", ">=", "=="]), ["v", rng.choice(ints)], ["c", rng.randint(0, 3)]]
+        r_ = ["cmp", rng.choice(["<", ">="]), ["v", rng.choice(ints)], ["c", rng.randint(0, 3)]]
+        a_, b_ = g_pure(rng, 1, ints, cnts, False), g_pure(rng, 1, ints, cnts, False)
+        shape = rng.randrange(5)
+        if shape == 0:
+            return ["+", [["if", p_, e, a_], ["if", p_, b_, copy.deepcopy(e)]]]
+        if shape == 1:
+            return ["if", p_, e, ["if", r_, copy.deepcopy(e), a_]]
+        if shape == 2:
+            return ["*", [e, copy.deepcopy(e)]]
+        if shape == 3:
+            return ["+", [["if", p_, a_, e], copy.deepcopy(e)]]
+        return e
+
+    def lazy_unsafe(e):
+        return (not lazy) and has_call(e)
+
+    def has_call(j):
+        if isinstance(j, list) and j:
+            if j[0] == "call":
+                return True
+            return any(has_call(x) for x in j if isinstance(x, list))
+        return False
+
     def leaf(cnts, guard_ok=True):
+        nd = leaf0(cnts, guard_ok)
+        remember(cnts, nd[1]["stmt"]["kind"])
+        return nd
+
+    def leaf0(cnts, guard_ok=True):
         sid = new_id()
         deps = sorted(rng.sample(ids[:-1], min(len(ids) - 1, rng.randint(0, 2))))
         cond = ["cb", True]
@@ -115,6 +171,18 @@ def g_phase(rng):
             cond = rng.choice([["v", "fl"], ["not", ["v", "fl"]], ["and", [["v", "fl"], ["v", "gl"]]]])
         r = rng.random()
         d = rng.choice([1, 2, 2, 3])
+        if rng.random() < 0.14:
+            q = rng.random()
+            if q < 0.5:
+                kind = ["assign", rng.choice(ints), None, repeated(cnts, d), []]
+            elif q < 0.8:
+                # the argument of a call taken verbatim from an earlier statement
+                usable = [e for c, e in pool if all(x in cnts for x in c) and not has_call(e)]
+                arg = copy.deepcopy(rng.choice(usable)) if usable else ["+", [["v", "<t>"], ["c", 1]]]
+                kind = ["call", [rng.choice(ints)], "<func>f", [arg], []]
+            else:
+                kind = ["yield", repeated(cnts, d), ["v", "<t>"], "final", "y"]
+            return ["leaf", {"id": sid, "deps": deps, "stmt": {"cond": cond, "kind": kind}}]
         if r < 0.35:
             kind = ["assign", rng.choice(ints), None, g_expr(rng, d, ints, arrs, cnts, lazy), []]
         elif r < 0.5:
